@@ -220,6 +220,95 @@ class Tr:
         return False
 
 
+class _Subst(ast.NodeTransformer):
+    def __init__(self, mapping):
+        self.mapping = mapping
+
+    def visit_Name(self, node):
+        if isinstance(node.ctx, ast.Load) and node.id in self.mapping:
+            import copy
+            return copy.deepcopy(self.mapping[node.id])
+        return node
+
+
+def _simple_arg(a):
+    return isinstance(a, (ast.Name, ast.Constant)) or (isinstance(a, ast.Attribute) and _simple_arg(a.value)) or \
+        (isinstance(a, ast.UnaryOp) and isinstance(a.op, ast.USub) and _simple_arg(a.operand))
+
+
+def _strip_doc(body):
+    return body[1:] if body and isinstance(body[0], ast.Expr) and isinstance(body[0].value, ast.Constant) and isinstance(body[0].value.value, str) else body
+
+
+def _helper_body(call, fns, depth):
+    """statements of the module-level helper `call` invokes, with its parameters replaced by the (simple) argument expressions"""
+    import copy
+    if depth > 6:
+        raise Untranslatable("helper calls nested too deeply")
+    f = fns.get(call.func.id)
+    if f is None:
+        return None
+    a = f.args
+    if a.vararg or a.kwarg or a.kwonlyargs or a.posonlyargs:
+        raise Untranslatable(f"helper {f.name} has a parameter list the translator does not inline")
+    params = [x.arg for x in a.args]
+    actual = list(call.args)
+    kw = {k.arg: k.value for k in call.keywords}
+    if any(k is None for k in kw):
+        raise Untranslatable("**kwargs in a helper call")
+    defaults = dict(zip(params[len(params) - len(a.defaults):], a.defaults))
+    mapping = {}
+    for i, pname in enumerate(params):
+        if i < len(actual):
+            v = actual[i]
+        elif pname in kw:
+            v = kw[pname]
+        elif pname in defaults:
+            v = defaults[pname]
+        else:
+            raise Untranslatable(f"helper {f.name}: argument {pname} missing")
+        if not _simple_arg(v):
+            raise Untranslatable(f"helper {f.name}: argument {ast.unparse(v)} is not a name / constant / attribute")
+        mapping[pname] = v
+    body = [_Subst(mapping).visit(copy.deepcopy(st)) for st in _strip_doc(f.body)]
+    return inline_helpers(body, fns, depth + 1)
+
+
+def _inline_expr(e, fns, depth):
+    """calls to single-`return` helpers inside an expression are replaced by the returned expression"""
+    class T(ast.NodeTransformer):
+        def visit_Call(self, node):
+            self.generic_visit(node)
+            if isinstance(node.func, ast.Name) and node.func.id in fns:
+                hb = _helper_body(node, fns, depth)
+                if hb is not None and len(hb) == 1 and isinstance(hb[0], ast.Return) and hb[0].value is not None:
+                    return hb[0].value
+                raise Untranslatable(f"call of helper {node.func.id} in an expression (its body is not a single return)")
+            return node
+    return T().visit(e)
+
+
+def inline_helpers(stmts, fns, depth=0):
+    """Tail calls `return helper(...)` and calls inside expressions to module-level helper functions are expanded in place, so that
+    extracting shared code into helpers does not put a validator outside the translated fragment."""
+    out = []
+    for st in stmts:
+        if isinstance(st, ast.Return) and isinstance(st.value, ast.Call) and isinstance(st.value.func, ast.Name) and st.value.func.id in fns:
+            hb = _helper_body(st.value, fns, depth)
+            out.extend(hb)
+            continue
+        if isinstance(st, ast.If):
+            st.test = _inline_expr(st.test, fns, depth)
+            st.body = inline_helpers(st.body, fns, depth)
+            st.orelse = inline_helpers(st.orelse, fns, depth)
+            out.append(st)
+            continue
+        if isinstance(st, (ast.Assign, ast.Return, ast.Raise, ast.Expr)):
+            st = _inline_expr(st, fns, depth)
+        out.append(st)
+    return out
+
+
 def esc(s):
     return s.replace("\\", "\\\\").replace('"', '\\"').replace("\n", "\\n")
 
@@ -241,10 +330,13 @@ def main():
         a = [x.arg for x in f.args.args]
         if len(a) != 3:
             raise Untranslatable(f"{name} takes {a}")
+        import copy
+        helpers = {k: v for k, v in fns.items() if k not in ("integer_validator", "uinteger_validator")}
+        fbody = inline_helpers(copy.deepcopy(_strip_doc(f.body)), helpers)
         branches = []
         for kind in KINDS:
             tr = Tr(a, kind, consts)
-            body = tr.block(f.body)
+            body = tr.block(copy.deepcopy(fbody))
             pat = PAT[kind]
             if kind == "int" and "i" not in body.replace("if", "").replace("lit", "").replace("int", "").replace("decide", ""):
                 pat = ".int _"
